@@ -816,6 +816,25 @@ func (s *Sim) build(a *Action, bs *BState) world.Req {
 				rq.Path = w.P("/2fa/" + a.opt("kind") + "/email/verify/end")
 			}
 		}
+	case "open_link":
+		// GET a route with the account's latest mailed token of some kind in the query string
+		rq.Method = "GET"
+		tok := ""
+		if ts := s.tokens(a.opt("tok"), "*", -1); len(ts) > 0 {
+			tok = ts[0].Token
+		}
+		a.Secret = tok
+		switch a.opt("where") {
+		case "recover_end_get":
+			rq.Path = w.P("/recover/end") + "?token=" + url.QueryEscape(tok)
+		case "protected":
+			rq.Path = "/protected/plain?token=" + url.QueryEscape(tok)
+		default:
+			rq.Path = w.P(a.opt("where")) + "?token=" + url.QueryEscape(tok)
+		}
+		if a.opt("broken") != "" {
+			rq.Path += "&x=%zz"
+		}
 	case "visit":
 		rq.Method = "GET"
 		rq.Path = a.opt("route")
